@@ -361,6 +361,73 @@ def x_model(ctx, cases, res):
     return bad, parse_showx(vals[-1]), len(rows)
 
 
+# ------------------------------------------------------------------ deeply nested values
+DEEP_KINDS = ("list", "tuple", "dict", "mixed")
+DEEP_DEPTHS = (50, 200, 300, 500, 2000)
+
+
+def deep_spec(kind, depth, leaf):
+    """the spec of c08_deep_impl.nest(kind, depth, leaf)"""
+    v = g.S(leaf)
+    for i in range(depth):
+        k = kind if kind != "mixed" else ("list", "tuple", "dict")[i % 3]
+        if k == "list":
+            v = g.L([v, g.I(i % 7)])
+        elif k == "tuple":
+            v = g.T([v, g.I(i % 7)])
+        else:
+            v = g.D([(g.S("k"), v), (g.S("n"), g.T([g.I(i % 7)]))])
+    return v
+
+
+def run_deep(cases):
+    text = "\n".join(json.dumps(c) for c in cases) + "\n"
+    rc, out, err = common.run_impl("c08_deep_impl.py", input_text=text, timeout=900)
+    lines = [json.loads(l) for l in out.splitlines() if l.strip()]
+    if rc != 0 or len(lines) != len(cases):
+        raise RuntimeError("c08_deep_impl rc=%s produced %d lines for %d cases: %s" % (rc, len(lines), len(cases), err[-1500:]))
+    return lines
+
+
+def judge_deep(c, r):
+    """joblib.hash either raises RecursionError (null) or returns THE digest of the value: independent of the recursion
+    limit and of the depth of the calling stack, equal for a rebuilt copy, different when the innermost leaf differs"""
+    if "harness_error" in r:
+        return "harness error " + r["harness_error"]
+    b = bytes.fromhex(r["stream"])
+    for algo, H in (("md5", hashlib.md5), ("sha1", hashlib.sha1)):
+        ref_a, ref_b = r["ref"][algo]
+        if ref_a == ref_b:
+            return "values differing in the innermost leaf have the same %s digest %s" % (algo, ref_a)
+        if H(b).hexdigest() != ref_a:
+            return "joblib.hash(v, %r) is not the digest of the bytes written by Hasher.dump(v)" % algo
+        for gt in r["got"]:
+            if gt["algo"] != algo or gt["digest"] is None:
+                continue
+            want = ref_b if gt["which"] == "b" else ref_a
+            if gt["digest"] != want:
+                return ("joblib.hash of a value nested %d levels (%s) returned %s under sys.setrecursionlimit(%d) from %d extra "
+                        "frames (%s), but %s with room for the recursion: the digest depends on the state of the interpreter"
+                        % (c["depth"], c["kind"], gt["digest"], gt["limit"], gt["frames"], gt["which"], want))
+    return None
+
+
+def deep_stage(ctx):
+    cases = [{"kind": k, "depth": d} for k in DEEP_KINDS for d in DEEP_DEPTHS]
+    res = run_deep(cases)
+    bad = []
+    stats = {"cases": len(cases), "digests": 0, "recursion_errors": 0}
+    for c, r in zip(cases, res):
+        what = judge_deep(c, r)
+        if what:
+            bad.append((what, {"kind": "deep", "case": c}))
+        for gt in r.get("got", []):
+            stats["digests" if gt["digest"] else "recursion_errors"] += 1
+    tie = [(deep_spec(c["kind"], c["depth"], "leaf-a"), r["stream"]) for c, r in zip(cases, res)
+           if c["depth"] <= 300 and "stream" in r]
+    return bad, tie, stats
+
+
 # ------------------------------------------------------------------ main
 def load_own_findings(ctx):
     """the per-property source file known_findings.d/C08.json (BUILDER_GUIDE: keys listed there are known findings);
@@ -454,6 +521,12 @@ def run(ctx):
     iters = [runs[0][i]["iter"] for i in ok_rows] + [r["iter"] for r in extra if "iter" in r]
     streams = [runs[0][i]["stream"] for i in ok_rows] + [r["stream"] for r in extra if "iter" in r]
     T["oracle"] = _t.time()
+    sys.setrecursionlimit(max(sys.getrecursionlimit(), 20000))      # the harness walks 300-level specs recursively
+    deep_bad, deep_tie, deep_stats = deep_stage(ctx)
+    for what, rep in deep_bad[:3]:
+        ctx.violation(what, rep, True)
+    iters += [sp for sp, _ in deep_tie]
+    streams += [st for _, st in deep_tie]
     xs = x_stage_impl(ctx, quick)
     T["ximpl"] = _t.time()
     for what, rep in xs["viol"][:3]:
@@ -502,7 +575,7 @@ def run(ctx):
         if not agree(mo, st):
             disagreements.append({"value_as_iterated": it, "impl_stream_hex": st[:600],
                                   "model": {"tag": mo[0], "len": mo[1], "bytes_or_md5": mo[2][:300]}})
-    if (disagreements or const_bad) and not viol:
+    if (disagreements or const_bad) and not viol and not deep_bad:
         hit = search_failing(ctx, 3000 if quick else 12000)
         first = disagreements[0] if disagreements else {"constants": const_bad}
         if hit:
@@ -544,7 +617,8 @@ def run(ctx):
         "live_constants": const,
         "extension": dict(xs["stats"], model_evaluations=n_xmodel, disagreements=len(xbad), live=xs["const"]),
         "stage_seconds": {k: round(T[k] - T[p], 1) for p, k in zip(["t0", "proofs", "impl", "oracle", "ximpl"], ["proofs", "impl", "oracle", "ximpl", "model"])},
-        "oracle_violations": len(viol) + len(xs["viol"]),
+        "deep_nesting": deep_stats,
+        "oracle_violations": len(viol) + len(xs["viol"]) + len(deep_bad),
         "known_finding_hits": len(known),
         "trusted_base": trusted,
         "exhaustive": False,
@@ -571,6 +645,11 @@ def replay(ctx, path):
         differ = g.canon(specs[0]) != g.canon(specs[1])
         print("replay: digests", res[0], res[1], "values differ:", differ)
         return 1 if (same and differ) else 0
+    if kind == "deep":
+        c = rep["case"]
+        what = judge_deep(c, run_deep([c])[0])
+        print("replay:", json.dumps(c), "=>", what or "property holds")
+        return 1 if what else 0
     if kind == "alias":
         c = rep["case"]
         u = g.unshare(c["x"])
